@@ -891,6 +891,20 @@ fn main() {
         match case["kind"].as_str() {
             Some("tree") => judge_tree(0, &TreeCase::from_json(&case), &mut acc, false),
             Some("inline") => judge_tree(0, &TreeCase::from_json(&case), &mut acc, true),
+            Some("openin-name") => {
+                let files: BTreeMap<String, String> = case["files"].as_object().map(|o| o.iter().map(|(k, v)| (k.clone(), v.as_str().unwrap_or("").to_string())).collect()).unwrap_or_default();
+                let prog = case["program"].as_str().unwrap_or("").to_string();
+                match vtex::run_fresh_with(&prog, |vm| {
+                    let fs = vm.state.env.fs.borrow();
+                    for (n, c) in &files {
+                        fs.add(&format!("{n}.tex"), c);
+                    }
+                }) {
+                    Outcome::Done(r) => println!("REPLAY property=C19 openin-name program delivers: {}", r.show()),
+                    _ => println!("REPLAY property=C19 openin-name program: panic or cut-off"),
+                }
+                std::process::exit(0);
+            }
             Some("history") => {
                 let h: Vec<Act> = case["actions"].as_array().map(|a| a.iter().map(Act::from_json).collect()).unwrap_or_default();
                 let obs: Vec<i64> = case["observed_streams"].as_array().map(|a| a.iter().map(|x| x.as_i64().unwrap_or(0)).collect()).unwrap_or_default();
@@ -999,6 +1013,80 @@ fn main() {
                 TreeCase { main: "\\input a m".into(), files }
             };
             judge_tree(i, &case, acc, false);
+        });
+    }
+    // F2d: file names with a character token of every category (scan_file_name §526 takes every character
+    // token up to a space: `if (cur_cmd>other_char) or (cur_chr>255) then begin back_input; goto done; end`; an
+    // active character made unexpandable ends the name and is read again after the file)
+    {
+        const NAME_CHARS: [char; 10] = ['$', '&', '#', '^', '_', '~', '{', '}', '1', 'é'];
+        let n = NAME_CHARS.len() as u64 * 3 * 4 * 2;
+        ctx.family("file-names", &format!("\\input of a name that holds one of {NAME_CHARS:?} (categories 3 4 6 7 8, active made \\relax, 1 2, 12, non-ASCII) at its start, in its middle or at its end x a file under the full name exists or not x a file under the name cut at that character exists or not x the name is ended by a space / by the end of the line"), n, |i, acc| {
+            let d = vcore::digits(i, &[NAME_CHARS.len() as u64, 3, 4, 2]);
+            let x = NAME_CHARS[d[0] as usize];
+            let (name, cut) = match d[1] {
+                0 => (format!("{x}q"), String::new()),
+                1 => (format!("q{x}r"), "q".to_string()),
+                _ => (format!("q{x}"), "q".to_string()),
+            };
+            let mut files = BTreeMap::new();
+            if d[2] & 1 == 1 {
+                files.insert(name.clone(), "F\n".to_string());
+            }
+            if d[2] & 2 == 2 && !cut.is_empty() {
+                files.insert(cut, "Q\n".to_string());
+            }
+            let line = if d[3] == 0 { format!("\\input {name} b") } else { format!("a\\input {name}") };
+            let case = TreeCase { main: format!("\\let~\\relax\n{line}\nz\n"), files };
+            if !x.is_alphanumeric() {
+                acc.count("file_name_contains_char_token_of_category_other_than_11_12");
+            }
+            judge_tree(i, &case, acc, false);
+        });
+        // the same names for \openin
+        ctx.family("openin-names", "\\openin 0=<the same names> followed by \\ifeof 0, same file variants", NAME_CHARS.len() as u64 * 3 * 4, |i, acc| {
+            let d = vcore::digits(i, &[NAME_CHARS.len() as u64, 3, 4]);
+            let x = NAME_CHARS[d[0] as usize];
+            let (name, cut) = match d[1] {
+                0 => (format!("{x}q"), String::new()),
+                1 => (format!("q{x}r"), "q".to_string()),
+                _ => (format!("q{x}"), "q".to_string()),
+            };
+            let mut files: BTreeMap<String, String> = BTreeMap::new();
+            if d[2] & 1 == 1 {
+                files.insert(name.clone(), "F\n".to_string());
+            }
+            if d[2] & 2 == 2 && !cut.is_empty() {
+                files.insert(cut, "Q\n".to_string());
+            }
+            acc.eval();
+            acc.nontrivial();
+            if !x.is_alphanumeric() {
+                acc.count("file_name_contains_char_token_of_category_other_than_11_12");
+            }
+            // TeX: every character token up to the space belongs to the name, except the active one, which
+            // ends it; what follows the active character is typeset (it is \relax itself)
+            let (tex_name, leftover) = match name.find('~') {
+                Some(p) => (name[..p].to_string(), format!("{} ", &name[p + 1..])),
+                None => (name.clone(), String::new()),
+            };
+            let want = format!("{leftover}{}", if files.contains_key(&tex_name) { "F" } else { "T" });
+            let prog = format!("\\let~\\relax\\scrollmode \\openin 0={name} \\ifeof 0 T\\else F\\fi %");
+            let case = || json!({"kind": "openin-name", "program": prog, "files": files});
+            match vtex::run_fresh_with(&prog, |vm| {
+                let fs = vm.state.env.fs.borrow();
+                for (n, c) in &files {
+                    fs.add(&format!("{n}.tex"), c);
+                }
+            }) {
+                Outcome::Done(r) => {
+                    if r.out != want || r.err.is_some() {
+                        acc.fail(i, case(), want, r.show(), "\\openin opened another file than the name TeX scans (§526)");
+                    }
+                }
+                Outcome::Cutoff => acc.cutoffs += 1,
+                Outcome::Panic(p) => acc.fail(i, case(), want, p.describe(), "the VM panicked"),
+            }
         });
     }
     // F3: chains
@@ -1122,6 +1210,7 @@ fn main() {
     ctx.require("read_from_terminal", "a \\read went to the terminal");
     ctx.require("stream_number_out_of_range", "a stream number outside 0..15 was used");
     ctx.require("two_streams_open", "two streams are open at the same time");
+    ctx.require("file_name_contains_char_token_of_category_other_than_11_12", "a file name holds a character token whose category is neither letter nor other");
     for (c, m) in [
         ("read_line_with_balanced_group_followed_by_more_lines", "a \\read stops after a line that holds a complete group while the file has further lines"),
         ("read_multiline_group_closes_before_last_line", "a \\read spans several lines and the group closes before the last line of the file"),
